@@ -28,6 +28,8 @@ CONSTANTS
   N400T = 53
   MaxSteps = @STEPS@
   MinSteps = @MINSTEPS@
+  Heavy = @HEAVY@
+  FirstHeaders = @FIRSTH@
   MaxData = @MAXDATA@
   MaxHdrs = @MAXHDRS@
 INIT GInit
